@@ -33,9 +33,9 @@ func init() {
 		Assumptions: []string{"h <= 32, l <= h, prefix < 2^l"},
 		Flavours: func(tier string) []string {
 			if tier == "thorough" {
-				return []string{"release", "386", "go126"}
+				return []string{"release", "386", "go126", "debug"}
 			}
-			return []string{"release", "386"}
+			return []string{"release", "386", "debug"}
 		},
 		Exhaustive: nil,
 		Required:   []string{"pathstr/more-than-2^17-distinct-paths-each-rendered-twice", "long-run/calls>=100000-per-function", "cold-start/all-ones-path-first", "field/l=0", "field/l=h", "field/h=32", "field/h=0", "order/ancestor-descendant", "order/left-right-subtrees", "order/equal", "order/h>=13", "pathstr/retained-results-reread", "field/relatives-in-consecutive-calls"},
